@@ -250,6 +250,10 @@ impl StateMachine<'_> {
             // As for the paths taken from the "---"/"+++" lines.
             utils::path::relativize_path_maybe(&mut name, self.config);
             let line = format!("{}{}", label, format_file(&name));
+            // This file's header is now written: do not write one again when the next "diff"
+            // line arrives (it would, if a commit line came in between).
+            self.handled_diff_header_header_line_file_pair
+                .clone_from(&self.current_file_pair);
             write_generic_diff_header_header_line(
                 &line,
                 &line,
